@@ -264,6 +264,17 @@ class Parser:
                     stmts.append(("assert", cond))
                 continue
             e = self.parse_expr()
+            # ---- BEGIN G01: `*self = e;` / `*self OP= e;` as the LAST statement of a `&mut self` body: the value of the
+            # block is the new `*self` (nodes `assign`/`assignop`; only the field-level emitter accepts them)
+            if self.peek()[0] == "op" and self.peek()[1] in ("=", "+=", "-=", "*="):
+                aop = self.next()[1]
+                rhs = self.parse_expr()
+                self.accept(";")
+                if not (self.peek()[1] == end and self.peek()[0] in ("op", "eof")):
+                    raise Unsupported("assignment that is not the last statement")
+                final = ("assign", e, rhs) if aop == "=" else ("assignop", aop, e, rhs)
+                break
+            # ---- END G01
             if self.accept(";"):
                 raise Unsupported("expression statement")
             final = e
@@ -716,6 +727,11 @@ class NatEmitter:
             b, bty, bok = self.emit(args[0], env, "u32")
             w = self.width(aty)
             return f"(({a} ^ {b}) % {p2(w)})", aty, self.conj(aok, bok, f"decide ({a} ^ {b} < {p2(w)})")
+        # ---- BEGIN G01: `x.to_le_bytes()` -> list of bytes, least significant first
+        if name == "to_le_bytes" and not args and aty in INT_TYPES:
+            nb = self.width(aty) // 8
+            return "[" + ", ".join(f"(({a} / {256 ** i}) % 256)" for i in range(nb)) + "]", ("array", "u8"), aok
+        # ---- END G01
         if name in ("into", "to_owned", "clone") and not args:
             return a, aty, aok
         if name == "raw_u64" and not args and aty == self.self_ty:
@@ -735,6 +751,23 @@ class NatEmitter:
             return t, path[0], ok
         if name == "from_raw_u64" and len(args) == 1:
             return self.emit(args[0], env, self.self_ty)
+        # ---- BEGIN G01: `uN::from_le_bytes(bytes)`; `bytes` an array parameter (env keys `bytes[i]`) or an array literal
+        if len(path) == 2 and path[0] in INT_TYPES and path[1] == "from_le_bytes" and len(args) == 1:
+            a0 = args[0]
+            if a0[0] == "path" and len(a0[1]) == 1 and f"{a0[1][0]}[0]" in env:
+                parts, i = [], 0
+                while f"{a0[1][0]}[{i}]" in env:
+                    parts.append((env[f"{a0[1][0]}[{i}]"][0], env[f"{a0[1][0]}[{i}]"][1], None))
+                    i += 1
+            elif a0[0] == "arraylit":
+                parts = [self.emit(x, env, "u8") for x in a0[1]]
+            else:
+                raise Unsupported("from_le_bytes: argument")
+            if len(parts) * 8 != INT_TYPES[path[0]] or any(p[1] != "u8" for p in parts):
+                raise Unsupported("from_le_bytes: arity / element type")
+            term = "(" + " + ".join(f"{p[0]} * {256 ** i}" for i, p in enumerate(parts)) + ")"
+            return term, path[0], self.conj(*[p[2] for p in parts])
+        # ---- END G01
         if name in self.fns:
             lname, ptys, rty = self.fns[name]
             if len(ptys) != len(args):
@@ -771,7 +804,7 @@ def translate_nat(body_src, params, lean_name, consts, fns, ret_hint=None):
     env = {}
     binders = []
     for n, t in params:
-        ln = n if n != "self" else "self"
+        ln = n.replace("[", "_").replace("]", "")     # G01: array-element parameters `chunks[3]` -> binder `chunks_3`
         env[n] = (ln, t)
         binders.append(f"({ln} : {lean_ty(t)})")
     term, rty, ok = em.emit(ast, env, ret_hint)
@@ -784,6 +817,108 @@ def translate_nat(body_src, params, lean_name, consts, fns, ret_hint=None):
     text += f"def {lean_name}_ok {b} : Bool :=\n  {ok or 'true'}\n"
     return text, [t for _, t in params], rty
 
+
+# --------------------------------------------------------------------------------------------------------
+# ---- BEGIN G01: field-level one-liners of `BFieldElement` (operands are *elements*, type "bfe")
+# --------------------------------------------------------------------------------------------------------
+
+class FieldEmitter(NatEmitter):
+    """Bodies whose operands are `BFieldElement`s rather than machine words: `*self += Self::one();`,
+    `*self = *self + rhs`, `Self::zero() - self`, `self * self`, `self == &Self::ZERO`, `BFieldElement::new(7)`.
+    A value of type "bfe" is the raw Montgomery word (a Lean `Nat`); `+ - *` on two "bfe" operands are the
+    *translated* `Add::add` / `Sub::sub` / `Mul::mul`, `OP=` is the translated `XxxAssign::xxx_assign`, `.0` goes to the
+    word and `Self(w)` back.  Anything else is refused."""
+
+    OPS = {"+": "add", "-": "sub", "*": "mul"}
+    ASSIGN = {"+=": "add_assign", "-=": "sub_assign", "*=": "mul_assign"}
+
+    def __init__(self, consts, fns, ffns):
+        super().__init__(consts, fns, self_ty="bfe")
+        self.ffns = ffns       # rust name -> (lean name, n_params) ; all parameters and the result are "bfe" (or bool)
+
+    def fcall(self, rname, parts):
+        if rname in self.ffns:
+            lname, n, rty = self.ffns[rname]
+        elif rname in self.fns and rname in ("add", "sub", "mul"):
+            lname, n, rty = self.fns[rname][0], 2, "bfe"
+        else:
+            raise Unsupported(f"field-level call of {rname}")
+        if n != len(parts) or any(p[1] != "bfe" for p in parts):
+            raise Unsupported(f"field-level call of {rname}: arguments")
+        argstr = " ".join(f"({p[0]})" if " " in p[0] else p[0] for p in parts)
+        return f"({lname} {argstr})" if parts else lname, rty, self.conj(*[p[2] for p in parts], f"({lname}_ok {argstr})" if parts else None)
+
+    def emit(self, e, env, exp=None):
+        k = e[0]
+        if k == "field" and e[2] == 0:
+            t, ty, ok = self.emit(e[1], env, None)
+            if ty != "bfe":
+                raise Unsupported(".0 on a non-element")
+            return t, "u64", ok
+        if k == "bin" and e[1] in self.OPS:
+            a = self.emit(e[2], env, None)
+            if a[1] == "bfe":
+                b = self.emit(e[3], env, None)
+                return self.fcall(self.OPS[e[1]], [a, b])
+        if k == "assign":
+            if e[1] != ("path", ["self"]):
+                raise Unsupported("assignment to something other than *self")
+            return self.emit(e[2], env, "bfe")
+        if k == "assignop":
+            if e[2] != ("path", ["self"]):
+                raise Unsupported("assignment to something other than *self")
+            return self.fcall(self.ASSIGN[e[1]], [self.emit(e[2], env, None), self.emit(e[3], env, None)])
+        if k == "mcall" and e[2] in self.ffns:
+            recv = self.emit(e[1], env, None)
+            if recv[1] == "bfe":
+                return self.fcall(e[2], [recv] + [self.emit(x, env, None) for x in e[3]])
+        return super().emit(e, env, exp)
+
+    def emit_call(self, e, env, exp):
+        _, path, args = e
+        if path[0] in ("Self", "BFieldElement") and len(path) == 1:       # `Self(word)`
+            t, ty, ok = self.emit(args[0], env, "u64")
+            if ty != "u64":
+                raise Unsupported("Self(..) of a non-word")
+            return t, "bfe", ok
+        if len(path) == 2 and path[0] in ("Self", "BFieldElement"):
+            if path[1] in self.ffns:
+                return self.fcall(path[1], [self.emit(x, env, None) for x in args])
+            if path[1] == "new" and "new" in self.fns and len(args) == 1:
+                t, ty, ok = self.emit(args[0], env, "u64")
+                if ty != "u64":
+                    raise Unsupported("new(..) of a non-u64")
+                lname = self.fns["new"][0]
+                arg = f"({t})" if " " in t else t
+                return f"({lname} {arg})", "bfe", self.conj(ok, f"({lname}_ok {arg})")
+        return super().emit_call(e, env, exp)
+
+
+def translate_field(body_src, params, lean_name, consts, fns, ffns):
+    """like `translate_nat` for a body over field elements; `params`: [(rust name, "bfe" | int type)]"""
+    toks = tokenize(body_src)
+    ps = Parser(toks)
+    ast = ps.parse_block_body(end="")
+    if ps.peek()[0] != "eof":
+        raise Unsupported(f"trailing tokens {ps.peek()}")
+    em = FieldEmitter(consts, fns, ffns)
+    env, binders = {}, []
+    for n, t in params:
+        env[n] = (n, t)
+        binders.append(f"({n} : Nat)")
+    term, rty, ok = em.emit(ast, env, None)
+    if rty not in ("bfe", "bool"):
+        raise Unsupported(f"field-level result type {rty}")
+    if term.startswith("(") and term.endswith(")") and balanced_paren(term):
+        term = term[1:-1]
+    b = " ".join(binders)
+    sep = " " if b else ""
+    text = f"def {lean_name}{sep}{b} : {'Bool' if rty == 'bool' else 'Nat'} :=\n  {term}\n\n"
+    text += f"/-- true iff no plain arithmetic operation reached from `{lean_name}` overflows (see `montyred_ok`) -/\n"
+    text += f"def {lean_name}_ok{sep}{b} : Bool :=\n  {ok or 'true'}\n"
+    return text, len(params), rty
+
+# ---- END G01
 
 # --------------------------------------------------------------------------------------------------------
 # back end "uint" (generated_function)
@@ -1101,7 +1236,7 @@ def main():
     out = [HEADER.format(src=bfe_rel), "import TF.Model.Word\n", "set_option linter.unusedVariables false\n", "namespace TF.Gen\n"]
 
     def tr(lname, src, rname, rel, after=None, params_override=None, ret_hint=None, body_override=None,
-           sink=None):
+           sink=None, smt=True):
         def go():
             params, ret, body = find_fn(src, rname, after)
             if body_override:
@@ -1122,6 +1257,8 @@ def main():
             (sink if sink is not None else out).append(f"/-- `{rname}` in {rel} -/\n" + text)
             fns[rname] = (lname, ptys, rty)
             record(lname, rel, text)
+            if not smt:      # G01: no SMT twin (it would be prepended to the twins of every later function)
+                return
             try:   # SMT twin, only used by the failing-input search; never fatal
                 import rs2smt
                 toks = tokenize(body)
@@ -1149,6 +1286,73 @@ def main():
     tr("bfe_sub", bfe, "sub", bfe_rel, after=r"impl Sub for BFieldElement")
     tr("bfe_mul", bfe, "mul", bfe_rel, after=r"impl Mul for BFieldElement")
     tr("mod_reduce", bfe, "mod_reduce", bfe_rel)
+
+    # ---- BEGIN G01: raw accessors / raw constructors (word level) ---------------------------------------------------
+    tr("bfe_is_canonical", bfe, "is_canonical", bfe_rel, smt=False)
+    tr("bfe_raw_u64", bfe, "raw_u64", bfe_rel, smt=False)
+    tr("bfe_from_raw_u64", bfe, "from_raw_u64", bfe_rel, smt=False)
+    tr("bfe_raw_u128", bfe, "raw_u128", bfe_rel, ret_hint="u128", smt=False)
+    tr("bfe_raw_u16s", bfe, "raw_u16s", bfe_rel, smt=False)
+    tr("bfe_from_raw_u16s", bfe, "from_raw_u16s", bfe_rel, params_override=[(f"chunks[{i}]", "u16") for i in range(4)], smt=False)
+    tr("bfe_raw_bytes", bfe, "raw_bytes", bfe_rel, smt=False)
+    tr("bfe_from_raw_bytes", bfe, "from_raw_bytes", bfe_rel, params_override=[(f"bytes[{i}]", "u8") for i in range(8)], smt=False)
+
+    # field-level one-liners: operands are elements; `+ - *` / `OP=` resolve to the translated trait methods
+    ffns = {}
+    fconsts = dict(consts)
+
+    def fconst(cname, trait):
+        def go():
+            m = re.search(r"impl\s+" + trait + r"\s+for\s+BFieldElement\s*\{\s*const\s+" + cname +
+                          r"\s*:\s*Self\s*=\s*Self::new\(\s*([0-9_]+)\s*\)\s*;\s*\}", bfe)
+            if not m:
+                raise Unsupported(f"shape of the constant {cname}")
+            v = int(m.group(1).replace("_", ""))
+            if v >= 2 ** 64 or "new" not in fns:
+                raise Unsupported(f"constant {cname}")
+            lname = "bfe_" + cname
+            text = f"def {lname} : Nat := {fns['new'][0]} {v}\n"
+            out.append(f"/-- `{trait}::{cname}` in {bfe_rel} -/\n" + text)
+            fconsts[cname] = (lname, "bfe")
+            record(lname, bfe_rel, text)
+        return try_(f"const bfe_{cname}", go)
+
+    fconst("ZERO", "ConstZero")
+    fconst("ONE", "ConstOne")
+
+    def trf(lname, src, rname, rel, after=None):
+        def go():
+            params, ret, body = find_fn(src, rname, after)
+            ps = []
+            for q in [x.strip() for x in params.split(",") if x.strip()]:
+                if q in ("self", "&self", "&mut self", "mut self"):
+                    ps.append(("self", "bfe"))
+                    continue
+                n, t = q.split(":", 1)
+                t = t.strip().lstrip("&").strip()
+                if t not in ("Self", "BFieldElement"):
+                    raise Unsupported(f"field-level parameter type {t}")
+                ps.append((n.replace("mut", "").strip(), "bfe"))
+            text, n, rty = translate_field(body, ps, lname, fconsts, fns, ffns)
+            out.append(f"/-- `{rname}` in {rel} -/\n" + text)
+            ffns[rname] = (lname, n, rty)
+            record(lname, rel, text)
+        return try_(f"fn {lname}", go)
+
+    trf("bfe_zero", bfe, "zero", bfe_rel, after=r"impl Zero for BFieldElement")
+    trf("bfe_is_zero", bfe, "is_zero", bfe_rel, after=r"impl Zero for BFieldElement")
+    trf("bfe_one", bfe, "one", bfe_rel, after=r"impl One for BFieldElement")
+    trf("bfe_is_one", bfe, "is_one", bfe_rel, after=r"impl One for BFieldElement")
+    trf("bfe_add_assign", bfe, "add_assign", bfe_rel, after=r"impl AddAssign for BFieldElement")
+    trf("bfe_sub_assign", bfe, "sub_assign", bfe_rel, after=r"impl SubAssign for BFieldElement")
+    trf("bfe_mul_assign", bfe, "mul_assign", bfe_rel, after=r"impl MulAssign for BFieldElement")
+    trf("bfe_neg", bfe, "neg", bfe_rel, after=r"impl Neg for BFieldElement")
+    trf("bfe_increment", bfe, "increment", bfe_rel)
+    trf("bfe_decrement", bfe, "decrement", bfe_rel)
+    trf("bfe_generator", bfe, "generator", bfe_rel)
+    trf("bfe_square", strip_comments(read("twenty-first/src/math/traits.rs")), "square",
+        "twenty-first/src/math/traits.rs", after=r"pub trait FiniteField")
+    # ---- END G01 ----------------------------------------------------------------------------------------------------
     out.append("end TF.Gen\n")
     if write_if_changed(os.path.join(OUT, "BField.lean"), "\n".join(out)):
         changed.append("BField")
